@@ -122,81 +122,54 @@ def _build_state_dict(atoms):
     return state_dict
 
 
+def _holds_in_atom(phi, labels, Xs):
+    if isinstance(phi, CTLS.Bool):
+        return bool(phi._value)
+
+    if isinstance(phi, CTLS.AtomicProposition):
+        return phi.name in labels
+
+    if isinstance(phi, CTLS.Not):
+        return not _holds_in_atom(phi.subformula(0), labels, Xs)
+
+    if isinstance(phi, CTLS.Or):
+        for sf in phi.subformulas():
+            if _holds_in_atom(sf, labels, Xs):
+                return True
+        return False
+
+    if isinstance(phi, CTLS.X):
+        return phi in Xs
+
+    Lang = sys.modules[phi.__module__]
+
+    return (_holds_in_atom(phi.subformula(1), labels, Xs) or
+            (_holds_in_atom(phi.subformula(0), labels, Xs) and
+             Lang.X(phi) in Xs))
+
+
 def _build_atoms(K, closure):
+    # an atom is identified by a state and by the X-formulas it contains;
+    # "X phi" belongs to an atom if and only if "X not phi" does not
+    free_Xs = [phi for phi in closure
+               if (isinstance(phi, CTLS.X) and
+                   not isinstance(phi.subformula(0), CTLS.Not))]
+
+    Xs_choices = [set()]
+    for phi in free_Xs:
+        Lang = sys.modules[phi.__module__]
+        neg_phi = Lang.X(LNot(phi.subformula(0)))
+
+        Xs_choices = ([Xs | set([phi]) for Xs in Xs_choices] +
+                      [Xs | set([neg_phi]) for Xs in Xs_choices])
+
     A = []
     for state in K.states():
-        A.append(_TableuAtom(state))
-
-    # this is to avoid issues with the "not X" case
-    cl_list = sorted(list(closure), key=(lambda a: a.height
-                                     if not (isinstance(a, CTLS.Not) and
-                                             isinstance(a.subformula(0), CTLS.X))
-                                     else a.height-1))
-
-    for phi in cl_list:
-        Lang = sys.modules[phi.__module__]
-
-        if phi != Lang.Not(True) and phi != Lang.Bool(False):
-            neg_phi = LNot(phi)
-
-            A_tail = []
-            if isinstance(phi, CTLS.Bool):
-                for atom in A:
-                    atom.add(phi)
-            else:
-                if isinstance(phi, CTLS.AtomicProposition):
-                    for atom in A:
-                        if phi in K.labels(atom.state):
-                            atom.add(phi)
-                        else:
-                            atom.add(neg_phi)
-
-            if (isinstance(phi, CTLS.Or)):
-                sf = phi.subformulas()
-
-                for atom in A:
-                    if sum([f in atom for f in sf])>0:
-                        atom.add(phi)
-                    else:
-                        atom.add(neg_phi)
-
-            if (isinstance(phi, CTLS.Not) and
-                    isinstance(phi.subformula(0), CTLS.X)):
-                sf = phi.subformula(0).subformula(0)
-
-                for atom in A:
-                    if phi.subformula(0) not in atom:
-                        if phi not in atom:
-                            new_atom = atom | set([phi, Lang.X(LNot(sf))])
-                            A_tail.append(new_atom)
-                            atom.add(phi.subformula(0))
-                        else:
-                            atom.add(Lang.X(LNot(sf)))
-
-            if isinstance(phi, CTLS.U):
-                sf = phi.subformulas()
-
-                for atom in A:
-                    if sf[1] in atom:
-                        atom.add(phi)
-                    else:
-                        if sf[0] in atom:
-                            if Lang.X(phi) in atom:
-                                atom.add(phi)
-                            else:
-                                if Lang.Not(Lang.X(phi)) not in atom:
-                                    A_tail.append( atom | {Lang.Not(Lang.X(phi))})
-                                    atom.add(phi)
-                                    atom.add(Lang.X(phi))
-                        else:
-                            atom.add(neg_phi)
-
-            A.extend(A_tail)
-
-            for atom in A:
-                if phi not in atom and neg_phi not in atom:
-                    A.append(atom | set([phi]))
-                    atom.add(neg_phi)
+        labels = K.labels(state)
+        for Xs in Xs_choices:
+            A.append(_TableuAtom(state,
+                                 [phi for phi in closure
+                                  if _holds_in_atom(phi, labels, Xs)]))
 
     return A
 
